@@ -183,11 +183,15 @@ def run_case_isolated(machine, case, wall_cap=None):
             return json.loads(text)
         except ValueError:
             pass
-    return machine.classify_crash(case, pid, status, text)
+    if hasattr(machine, "classify_crash"):
+        return machine.classify_crash(case, pid, status, text)
+    return default_classify_crash(machine, case, pid, status, text)
 
 
-def runner_for(machine):
-    if getattr(machine, "ISOLATE", False):
+def runner_for(machine, safe=False):
+    """safe=True (driver process: corpus replays, minimisation, replay command): always one forked child per case,
+    so that a case that crashes native code cannot take the driver down."""
+    if getattr(machine, "ISOLATE", False) or safe:
         return run_case_isolated
     per_case = getattr(machine, "isolate", None)
     if per_case is None:
@@ -205,9 +209,52 @@ _MACHINE = None
 
 
 def _chunk(args):
+    """One chunk of runs.  Machines whose cases run in-process (no per-case fork) execute the chunk in a forked
+    child; if that child dies (segfault, abort in native code) the chunk is repeated with one forked child per case,
+    so that the crashing case is identified and reported through classify_crash instead of taking the worker down."""
+    m = _MACHINE
+    if getattr(m, "ISOLATE", False) or not getattr(m, "CHUNK_ISOLATE", True):
+        return _chunk_inner(args, None)
+    import pickle
+    if hasattr(m, "prefork"):
+        m.prefork()          # resources the forked children share with this worker (e.g. replica server processes)
+    r, w = os.pipe()
+    sys.stdout.flush()
+    sys.stderr.flush()
+    pid = os.fork()
+    if pid == 0:
+        code = 0
+        try:
+            os.close(r)
+            out = pickle.dumps(_chunk_inner(args, None))
+            with os.fdopen(w, "wb") as f:
+                f.write(out)
+        except BaseException:
+            code = 97
+        finally:
+            os._exit(code)
+    os.close(w)
+    with os.fdopen(r, "rb") as f:
+        blob = f.read()
+    _, status = os.waitpid(pid, 0)
+    if os.WIFEXITED(status) and os.WEXITSTATUS(status) == 0 and blob:
+        return pickle.loads(blob)
+    return _chunk_inner(args, run_case_isolated)
+
+
+def default_classify_crash(machine, case, pid, status, text):
+    c = Ctx()
+    sig = os.WTERMSIG(status) if os.WIFSIGNALED(status) else None
+    what = ("signal %d" % sig) if sig else "exit status %d" % os.WEXITSTATUS(status)
+    return c.result(violation={"key": "crash/%s" % (("signal%d" % sig) if sig else "exit%d" % os.WEXITSTATUS(status)),
+                               "msg": "the process executing this case died (%s) inside the library" % what,
+                               "observed": "crash (%s)" % what, "expected": "a result or a documented exception"})
+
+
+def _chunk_inner(args, forced_runner):
     tier, master, lo, hi, want_obs = args
     m = _MACHINE
-    runner = runner_for(m)
+    runner = forced_runner or runner_for(m)
     agg = {"evaluations": 0, "digests": set(), "faults": collections.Counter(),
            "probes": collections.Counter(), "states": set(), "steps": 0, "violations": [],
            "harness_errors": [], "samples": [], "obs": {}, "observations": [], "not_judged": 0,
